@@ -5,8 +5,11 @@ CONSTANTS
   Literal <- LitTbl
   DecodeFirst = TRUE
   HandsOutCopy = FALSE
+  ViewReads = "view"
+  ReleasesView = FALSE
   MaxCalls = 3
 INVARIANT CarrierFree
 INVARIANT LoadAgrees
 INVARIANT NeverRaises
+INVARIANT InputIntact
 CHECK_DEADLOCK FALSE
